@@ -29,7 +29,7 @@
  */
 typedef struct rotenc {
 	uint8_t last_state;
-	uint8_t count;
+	uint16_t count;
 	uint16_t internal_count;
 } rotenc_t;
 
@@ -63,7 +63,7 @@ uint16_t rotenc_count14(rotenc_t *r);
  */
 static inline uint8_t rotenc_count(rotenc_t *r)
 {
-	return r->count;
+	return (uint8_t) r->count;
 }
 
 /*! @} */
